@@ -513,7 +513,10 @@ func (c *Client) reconnect(ctx context.Context) error {
 func (c *Client) doRountrip(ctx context.Context, msg *kmip.RequestMessage) (*kmip.ResponseMessage, error) {
 	c.lock.Lock()
 	defer c.lock.Unlock()
-	if c.conn == nil {
+	// Dial when there is no connection, or when the current one has been torn
+	// down by a previous failure (whatever the error was): a dead connection
+	// would otherwise fail every later call with its stale error.
+	if c.conn == nil || (!c.conn.closed.Load() && c.conn.ctx.Err() != nil) {
 		if err := c.reconnect(ctx); err != nil {
 			return nil, err
 		}
